@@ -444,10 +444,16 @@ func (c *Float) Ident() string {
 	default:
 		panic(fmt.Errorf("support for floating-point kind %v not yet implemented", c.Typ.Kind))
 	}
+	// Use the shortest decimal representation which uniquely identifies the
+	// value as a double precision floating-point number, since LLVM reads
+	// decimal floating-point literals as double (and requires the conversion to
+	// the type of the literal to be exact); e.g. float 2^25 is printed as
+	// 3.3554432e+07, not as 3.355443e+07 (which identifies it among floats).
+	x := new(big.Float).SetPrec(53).Set(c.X)
 	// Insert decimal point if not present.
 	//    3e4 -> 3.0e4
 	//    42  -> 42.0
-	s := c.X.Text('g', -1)
+	s := x.Text('g', -1)
 	if !strings.ContainsRune(s, '.') {
 		if pos := strings.IndexByte(s, 'e'); pos != -1 {
 			s = s[:pos] + ".0" + s[pos:]
